@@ -126,7 +126,8 @@ HandleUltraZipBPP (rfbClient* client, int rx, int ry, int rw, int rh)
   int toRead=0;
   int inflateResult=0;
   unsigned char *ptr=NULL;
-  lzo_uint uncompressedBytes = ry + (rw * 65535);
+  /* computed in lzo_uint: int arithmetic overflows for rw >= 32769 */
+  lzo_uint uncompressedBytes = (lzo_uint)ry + ((lzo_uint)rw * 65535);
   unsigned int numCacheRects = rx;
 
   if (!ReadFromRFBServer(client, (char *)&hdr, sz_rfbZlibHeader))
@@ -138,6 +139,12 @@ HandleUltraZipBPP (rfbClient* client, int rx, int ry, int rw, int rh)
 
   if (toRead < 0) {
       rfbClientErr("ultrazip error: remote sent negative payload size\n");
+      return FALSE;
+  }
+
+  /* raw_buffer_size is an int (rounded up to a multiple of 4 below) */
+  if (uncompressedBytes + 504 > 0x7fffffff) {
+      rfbClientLog("ultrazip error: rectangle announces %lu uncompressed bytes\n", (unsigned long)uncompressedBytes);
       return FALSE;
   }
 
